@@ -44,3 +44,54 @@ package scheduler
 //@   precall scheduler\.diffValidators$ :: argIs(1, currentValidators) && argIs(2, pendingValidators) && pendingValidators != nil
 //@   precall state\.MutableState\)\.PutCurrentValidators$ :: argIs(1, pendingValidators) && defined(validatorUpdates)
 //@   note EndBlock hands CometBFT the difference between the stored current set and the stored pending set, and only then records the pending set as current
+
+// ---- election order is a function of state and entropy (C14): map iteration order never reaches the shuffle ----
+//
+// ordDet(s) = "the order of the elements of the backing array of s is a function
+// of the SET of its elements (and of deterministic inputs)" - established by the
+// library models of sort.Slice / sort.Strings / slices.Sort. A slice collected
+// from a Go map has no such guarantee; sortAddresses establishes it; the
+// entropy-seeded shuffle and the stable sort by balance preserve it (they are
+// deterministic functions of the contents, the DRBG state and the balances).
+
+//@ import staking "github.com/oasisprotocol/oasis-core/go/staking/api"
+//@ import "github.com/oasisprotocol/oasis-core/go/common/quantity"
+
+//@ func sortAddresses
+//@   props C14
+//@   modifies addrs
+//@   ensures ordDet(addrs)
+//@   note sort.Slice by bytes.Compare of the addresses: the resulting order depends only on the set of addresses (they are distinct map keys)
+
+//@ func shuffleAddresses
+//@   trusted
+//@   modifies addrs
+//@   ensures ordDet(addrs) == old(ordDet(addrs))
+//@   note rand.Shuffle driven by the entropy-seeded DRBG: a deterministic permutation of the current order
+
+//@ func sortAddressesByBalance
+//@   trusted
+//@   modifies addrs
+//@   ensures ordDet(addrs) == old(ordDet(addrs))
+//@   note sort.SliceStable: ties keep the current order
+
+//@ func initRNG
+//@   props C14
+//@   modifies nothing
+
+//@ func fetchBalances
+//@   props C14
+//@   modifies nothing
+//@   loop 1 invariant true
+
+//@ func stakingAddressMapToSliceByStake
+//@   props C14
+//@   precall scheduler\.shuffleAddresses$ :: ordDet(addrs)
+//@   ensures err == nil ==> ordDet(result0)
+//@   note the slice handed to the entropy-seeded shuffle (and returned) never carries Go's map iteration order: it is sorted first
+
+//@ func distributeRewards
+//@   props C14
+//@   requires ctx != nil && schedulerParameters != nil && quantity.Val(&schedulerParameters.RewardFactorEpochElectionAny) >= 0
+//@   precall state\.MutableState\)\.AddRewards$ :: ordDet(addrs)
+//@   note rewards are paid in sorted address order (the order of account updates and events is part of the replicated state)
